@@ -833,7 +833,7 @@ func checkValidationPreconditions(p *core.Prog, r *core.Report) {
 		b := ifi.Block().Succs[nilIdx]
 		if ret, ok := b.Instrs[len(b.Instrs)-1].(*ssa.Return); ok && !core.ReturnsNilError(ret) {
 			// and the test precedes the first ModuleKind call
-			first := core.FindInstrs(vm, core.IsCallTo(mk))
+			first := core.FindInstrsIn(vm, core.IsCallTo(mk)) // the calls in ValidateModules itself: the helpers run after this loop
 			okAll := len(first) > 0
 			for _, c := range first {
 				if _, dom := core.MustPassBefore(vm, func(x ssa.Instruction) bool { return x == ssa.Instruction(ifi) }, func(x ssa.Instruction) bool { return x == c }); !dom {
